@@ -177,3 +177,95 @@ Proof.
   destruct (stored_closed_ccw l) as [Hc Ha]. set (n := normalise OpsR l) in *.
   unfold normalise at 1. rewrite (close_id n Hc), (orient_id n Ha), (close_id n Hc). reflexivity.
 Qed.
+
+(* ---- membership (crossing-number test) under the maps ---- *)
+Lemma Rltb_shift x y d : Rltb (x + d) (y + d) = Rltb x y.
+Proof.
+  destruct (Rltb x y) eqn:E.
+  - apply Rltb_true in E. apply Rltb_true. lra.
+  - apply Rltb_false in E. apply Rltb_false. lra.
+Qed.
+Lemma Rltb_scale x y f : 0 < f -> Rltb (f * x) (f * y) = Rltb x y.
+Proof.
+  intros Hf. destruct (Rltb x y) eqn:E.
+  - apply Rltb_true in E. apply Rltb_true. apply Rmult_lt_compat_l; assumption.
+  - apply Rltb_false in E. apply Rltb_false. apply Rmult_le_compat_l; lra.
+Qed.
+
+Definition hit (a b p : ptR) : bool :=
+  if negb (Bool.eqb (Rltb (snd p) (snd a)) (Rltb (snd p) (snd b)))
+  then Rltb (fst p) (fst a + (fst b - fst a) * (snd p - snd a) / (snd b - snd a)) else false.
+Lemma crossings_cons2 (a b : ptR) tl p :
+  crossings OpsR (a :: b :: tl) p = xorb (hit a b p) (crossings OpsR (b :: tl) p).
+Proof. reflexivity. Qed.
+
+Lemma Rltb_iff x y x' y' : (x < y <-> x' < y') -> Rltb x y = Rltb x' y'.
+Proof.
+  intros H. destruct (Rltb x' y') eqn:E.
+  - apply Rltb_true in E. apply Rltb_true. tauto.
+  - apply Rltb_false in E. apply Rltb_false. destruct (Rle_or_lt y x) as [L|L]; [exact L|]. apply H in L. lra.
+Qed.
+
+(* C18: a point moved with the shape stays on the same side: translation *)
+Theorem mem_translate dx dy : forall (l : list ptR) (p : ptR),
+  inside OpsR (translate OpsR dx dy l) (fst p + dx, snd p + dy) = inside OpsR l p.
+Proof.
+  unfold inside, translate. induction l as [|a tl IH]; intros p; [reflexivity|].
+  destruct tl as [|b tl']; [reflexivity|].
+  cbn [map] in *. rewrite !crossings_cons2. f_equal; [clear IH|apply IH].
+  unfold hit. opsg. cbn [fst snd]. rewrite !Rltb_shift.
+  match goal with |- (if ?c then _ else _) = _ => destruct c eqn:S end; [|reflexivity].
+  assert (Hne : snd b - snd a <> 0).
+  { intros H0. assert (E : snd b = snd a) by lra. apply negb_true_iff, Bool.eqb_false_iff in S. apply S.
+    f_equal. symmetry. exact E. }
+  apply Rltb_iff.
+  match goal with |- (_ < ?Y) <-> (_ < ?y) => assert (EY : Y = y + dx) by (field; exact Hne) end.
+  split; intros L; lra.
+Qed.
+
+Lemma scale_x_lemma ox oy fx fy ax ay bx by_ py : by_ - ay <> 0 -> fy <> 0 ->
+  (ox + fx*(ax-ox)) + ((ox+fx*(bx-ox)) - (ox+fx*(ax-ox))) * ((oy+fy*(py-oy)) - (oy+fy*(ay-oy))) / ((oy+fy*(by_-oy)) - (oy+fy*(ay-oy)))
+  = fx * (ax + (bx-ax)*(py-ay)/(by_-ay)) + (ox - fx*ox).
+Proof.
+  intros H1 H2. field. split; [exact H1|].
+  replace (oy + fy * (by_ - oy) - (oy + fy * (ay - oy))) with (fy * (by_ - ay)) by ring.
+  apply Rmult_integral_contrapositive_currified; assumption.
+Qed.
+
+(* ... and scaling about any origin with positive factors *)
+Theorem mem_scale ox oy fx fy : 0 < fx -> 0 < fy -> forall (l : list ptR) (p : ptR),
+  inside OpsR (scale_about OpsR ox oy fx fy l) (ox + fx * (fst p - ox), oy + fy * (snd p - oy)) = inside OpsR l p.
+Proof.
+  intros Hx Hy. unfold inside, scale_about. induction l as [|a tl IH]; intros p; [reflexivity|].
+  destruct tl as [|b tl']; [reflexivity|].
+  cbn [map] in *. rewrite !crossings_cons2. f_equal; [clear IH|apply IH].
+  unfold hit. opsg. cbn [fst snd].
+  assert (Ey : forall s t, Rltb (oy + fy * (s - oy)) (oy + fy * (t - oy)) = Rltb s t).
+  { intros s t. replace (oy + fy * (s - oy)) with (fy * s + (oy - fy * oy)) by ring.
+    replace (oy + fy * (t - oy)) with (fy * t + (oy - fy * oy)) by ring.
+    rewrite Rltb_shift. apply Rltb_scale. exact Hy. }
+  rewrite !Ey.
+  match goal with |- (if ?c then _ else _) = _ => destruct c eqn:S end; [|reflexivity].
+  assert (Hne : snd b - snd a <> 0).
+  { intros H0. assert (E : snd b = snd a) by lra. apply negb_true_iff, Bool.eqb_false_iff in S. apply S.
+    f_equal. symmetry. exact E. }
+  apply Rltb_iff.
+  match goal with |- (_ < ?Y) <-> (_ < ?y) => assert (EY : Y = fx * y + (ox - fx * ox)) by (apply scale_x_lemma; [exact Hne|lra]) end.
+  rewrite EY. clear EY.
+  match goal with |- (_ + _ * (?x - _) < _ * ?y + _) <-> _ => generalize y; generalize x end. intros x y.
+  replace (ox + fx * (x - ox)) with (fx * x + (ox - fx * ox)) by ring.
+  split; intros L; [|assert (fx * x < fx * y) by (apply Rmult_lt_compat_l; assumption); lra].
+  apply (Rmult_lt_reg_l fx); lra.
+Qed.
+
+(* C18: a point is inside a device exactly when it is inside the film and outside every hole (the device test as a
+   definition over the crossing test), and this is preserved when device and point are translated together *)
+Definition in_device (film : list ptR) (holes : list (list ptR)) (p : ptR) : bool :=
+  inside OpsR film p && forallb (fun h => negb (inside OpsR h p)) holes.
+Theorem in_device_translate dx dy film holes p :
+  in_device (translate OpsR dx dy film) (map (translate OpsR dx dy) holes) (fst p + dx, snd p + dy)
+  = in_device film holes p.
+Proof.
+  unfold in_device. rewrite mem_translate. f_equal.
+  induction holes as [|h tl IH]; [reflexivity|]. cbn [map forallb]. rewrite mem_translate, IH. reflexivity.
+Qed.
